@@ -558,7 +558,7 @@ def r19(ctx):
     ctx.mark('transport-close', 'C20.R19')
     ctx.rule('C20.R19', 'a closed transport forgets what it had buffered: FileTransport::close() sets m_bufLen to 0 on every path - '
              'open() does not touch the buffer, and the frame decoder leaves the first byte of an incomplete sequence there, so '
-             'after a reconnect stale bytes would be glued in front of the new data', minimum=1)
+             'after a reconnect stale bytes would be glued in front of the new data; and only close() releases the descriptor m_fd', minimum=2)
     fb = ctx.fb
     fn = fb.fn('ebusd::FileTransport::close')
     ctx.touch(fn)
@@ -567,9 +567,22 @@ def r19(ctx):
     cut = fn.edges_with_atom('(this.m_fd == #-1)', True)
     kept = fn.reaches_point(fn.entry, (fn.exit, 0), z, cut_edges=cut)
     ctx.ob('C20.R19', fn, fn.body, bool(z) and not kept, 'buffered length in close()', 'reset on every path: %s' % (bool(z) and not kept))
+    # the descriptor m_fd is released only there: a raw ::close(m_fd) in another function of the transport (open() for a
+    # re-open) skips the flush of the buffer and the notification that resets the device state
+    for f in fb.functions:
+        if f.relfile != 'src/lib/ebus/transport.cpp' or not f.nodes:
+            continue
+        for c in f.calls():
+            v = f.nodes[c]
+            if v['k'] == 'CallExpr' and v.get('callee') in ('close', '::close') and v.get('args') and 'm_fd' in f.key(v['args'][0]):
+                ok = f.name == 'ebusd::FileTransport::close'
+                ctx.touch(f)
+                ctx.ob('C20.R19', f, c, ok, 'release of the descriptor in %s' % f.name.split('::', 1)[1],
+                       'only FileTransport::close() closes m_fd (it also flushes the buffer and tells the listener): %s' % ok)
 
 
 def r22(ctx):
+    ctx.mark('request-ownership', 'C20.R22')
     ctx.rule('C20.R22', 'no request object is leaked: ProtocolHandler::addRequest refuses a request without taking it exactly '
              'when the handler is read-only (its only early return; checked here). Every request BusHandler creates with new '
              'is therefore either deleted in the creating function on the failure of addRequest (a delete of it is reachable '
@@ -615,6 +628,24 @@ def r22(ctx):
 
 
 def run(ctx):
+    import rules.common as _cms
+    ctx.rule('C20.R28', 'a failure reported as -1 stays negative: in the sources of this property the result of a POSIX call that reports errors as -1 (read, write, recv, send, poll, open, socket, ioctl, ...) is not converted to an unsigned type where it is stored or tested (equality with the requested length excepted) - held in a size_t a failed read counts as SIZE_MAX received bytes, the buffered length runs past the 32 byte receive buffer and the decoder reads far beyond it', minimum=30)
+    _cms.signed_result_rule(ctx, 'C20.R28', lambda f: f.relfile.startswith(('src/lib/ebus/', 'src/lib/utils/', 'src/ebusd/')), 30)
+    import rules.common as _cmm
+    ctx.rule('C20.R27', 'a mask for a 64 bit value is computed in 64 bits: where the sources of this property combine a 64 bit integer (a key) by &, | or ^ with an operand the compiler widens from 32 bits or less, that operand contains no shift or complement with a non-constant value - ~(0xff << 8*(3-len)) in int clears the whole upper half of the key (length, source, destination, command) for the last shortening', minimum=25)
+    _cmm.wide_mask_rule(ctx, 'C20.R27', lambda f: f.relfile.startswith(('src/lib/ebus/', 'src/ebusd/')), 25)
+    import rules.common as _cmw
+    ctx.rule('C20.R26', 'a 64 bit key or time stays 64 bit: where the sources of this property call a repository function declared to return uint64_t (message and answer keys, the millisecond clock), the result is not converted implicitly to a narrower integer at the call - a key held in an unsigned int loses ID length, source, destination and command bytes and never matches a stored key again', minimum=15)
+    _cmw.wide_result_rule(ctx, 'C20.R26', lambda f: f.relfile.startswith(('src/lib/ebus/', 'src/ebusd/')), 15)
+    import rules.common as _cmn
+    ctx.rule('C20.R25', 'an argument is still the argument where it is read: a for loop that takes a by-value parameter over as its counter destroys the argument, so no read of that parameter is reachable behind such a loop - BusHandler::prepareScan decides who frees a scan request (deleteOnFinish) by slave == SYN; behind for (slave = 1; slave != 0; slave++) that test is always false and every asynchronous scan request stays in the finished queue for ever (checked against a positive example on every run)', minimum=3)
+    _cmn.loop_counter_param_rule(ctx, 'C20.R25', lambda f: f.relfile.startswith(('src/lib/ebus/', 'src/ebusd/')), 3)
+    import rules.C04 as _c04
+    ctx.rule('C20.R24', 'no use after the end of a lifetime: a request object created with new outlives the creating function, so none of its reference data members is bound, through the constructor, to a local variable of that function', minimum=2)
+    _c04.request_owns_data_rule(ctx, 'C20.R24')
+    import rules.common as _cm
+    ctx.rule('C20.R23', "a value is compared with a constant in the domain of its own type: in the sources of this property every comparison of a variable, member, element or call result with an integer constant (==, !=) has the constant inside the value range of the operand's own integer type before promotion - a symbol held in a signed char never equals 0xA9/0xAA/0xFE, so the escape, SYN or broadcast test behind it is dead for exactly the symbols it exists for", minimum=300)
+    _cm.compare_domain_rule(ctx, 'C20.R23', lambda f: f.relfile.startswith(('src/lib/ebus/', 'src/ebusd/request.', 'src/ebusd/mainloop.', 'src/ebusd/bushandler.')), 300)
     r22(ctx)
     r19(ctx)
     r15(ctx)
